@@ -186,15 +186,20 @@ PROPS.append(('C01', """(* C01 - a corpus document embedded verbatim in a file i
 IMP_V1 = """From Coq Require Import List NArith ZArith Bool Arith Lia.
 Import ListNotations.
 From LC.Base Require Import Utf8.
-From LC.V1 Require Import Tok1 Matcher1 Tok1Proof Matcher1Proof Matcher1Straddle."""
+From LC.Base Require Import Sort.
+From LC.V1 Require Import Tok1 Matcher1 Tok1Proof Matcher1Proof Matcher1Straddle Join1 Join1Proof."""
 
 PROPS.append(('C17', """(* C17 - v1 token offsets and candidate ranges always delimit real text.
    Statements only; proofs in V1/Tok1Proof.v.  [tokenize U true] is the model
    of searchset/tokenizer.Tokenize as repaired (token text = source bytes);
    [candidates_from_sorted] models untangle/split/merge/coalesce of
    searchset.FindPotentialMatches starting from the sorted list of q-gram
-   matches (targetMatchedRanges and sort.Sort are an oracle: any list of
-   in-bounds ranges sorted by target start). *)""", IMP_V1, [
+   matches.  The last four theorems start one level lower, from the node
+   lists: [hash_ranges]/[node_ranges] model the windows searchset.New hashes
+   (compared with the code on every case), and what targetMatchedRanges keeps
+   is only assumed to pair a hashed source window with a target node of equal
+   checksum ([pairingb]) and to be sorted ([sorted_lexb]) - both evaluated on
+   the code's output on every case; which pairs are kept stays heuristic code. *)""", IMP_V1, [
  ('C17_offsets_reproduce_text', 'tok_text_at', 'V1/Tok1Proof.v', 'every token text is exactly the bytes of the string at its offset, non-empty, inside the string'),
  ('C17_tokens_ordered', 'tok_ordered', 'V1/Tok1Proof.v', 'tokens are in increasing, non-overlapping order'),
  ('C17_tokens_cover_non_space', 'tok_cover', 'V1/Tok1Proof.v', 'every non-space rune lies inside a token, every space rune outside all tokens'),
@@ -202,6 +207,11 @@ PROPS.append(('C17', """(* C17 - v1 token offsets and candidate ranges always de
  ('C17_candidates_ordered', 'cand_ordered', 'V1/Tok1Proof.v', 'candidates are ordered by target position'),
  ('C17_source_ranges_nonempty', 'cand_range_ok_lex', 'V1/Tok1Proof.v', 'under the real sort order source ranges stay non-empty as well (the second merge branch is dead code)'),
  ('C17_target_range_inside_text', 'candidates_target_range_tokenize', 'V1/Tok1Proof.v', 'TargetRange of every candidate is a byte range with start <= end inside the tokenized string: Offset/Extent can always be used to slice the text'),
+ ('C17_windows_in_bounds', 'hash_ranges_ok', 'V1/Join1Proof.v', 'every window New hashes is non-empty and inside the token list, for every text length and every granularity >= 0'),
+ ('C17_sort_establishes_hypotheses', 'sort_pairings', 'V1/Join1Proof.v', 'merge sort with MatchRanges.Less keeps every pairing and yields the sortedness the pipeline needs, for every list'),
+ ('C17_candidates_from_nodes', 'candidates_from_nodes', 'V1/Join1Proof.v', 'C17(b) from the node lists: no assumption on the ranges beyond pairing and sortedness (both evaluated per case)', 'typeof'),
+ ('C17_target_range_from_nodes', 'target_range_from_nodes', 'V1/Join1Proof.v', 'TargetRange of every candidate slices the tokenized string, from the node lists'),
+ ('C17_negative_granularity_window', 'negative_granularity_bad_window', 'V1/Join1Proof.v', 'the guard is needed: a negative granularity hashes the window (0, g)', 'typeof'),
  ('C17_original_refuted', 'unfixed_refuted', 'V1/Tok1Proof.v', 'REFUTATION for Tokenize as found: on invalid UTF-8 a token extends past the end of the string'),
 ], ''))
 
